@@ -967,11 +967,16 @@ impl Scenario for Listeners {
     }
     fn variants(&self, _tier: &str) -> Vec<Value> {
         // flood: listeners that are not read while 300 confirms and 300 returned messages arrive
-        vec![json!({"drop_second": false}), json!({"drop_second": true}), json!({"flood": 300}), json!({"drop_second": false, "fine": true}), json!({"drop_second": true, "fine": true})]
+        vec![json!({"drop_second": false}), json!({"drop_second": true}), json!({"flood": 300}), json!({"drop_second": false, "fine": true}), json!({"drop_second": true, "fine": true}),
+            // events the server sends between the client's Connection.Close and its own CloseOk
+            json!({"late": true})]
     }
     fn bound(&self, tier: &str, p: &Value) -> usize {
         if p["flood"].is_u64() {
             return if tier == "thorough" { 1 } else { 0 };
+        }
+        if p["late"] == true {
+            return if tier == "thorough" { 2 } else { 1 };
         }
         if p["fine"] == true {
             return if tier == "thorough" { 2 } else { 1 };
@@ -988,6 +993,9 @@ impl Scenario for Listeners {
     fn build(&self, p: &Value) -> Built {
         if let Some(k) = p["flood"].as_u64() {
             return flood_listeners(k as usize);
+        }
+        if p["late"] == true {
+            return late_listeners();
         }
         let mut broker = StdBroker::new(Handshake::default());
         broker.pushes.push(Push::new("nack", vec![AMQPFrame::Method(1, AMQPClass::Basic(basic::AMQPMethod::Nack(basic::Nack { delivery_tag: 99, multiple: true, requeue: false })))]).when_channel(1, 2));
@@ -1074,6 +1082,13 @@ impl Scenario for Listeners {
         let mut v = Vec::new();
         let a = o.logs.get("a").cloned().unwrap_or_default();
         let main = o.logs.get("main").cloned().unwrap_or_default();
+        if p["late"] == true {
+            let want = vec!["close -> Ok".to_string(), "confirms [\"Ack(7,false)\", \"Nack(8,true)\"]".to_string(), "returns [(\"late\", [4, 2])]".to_string(), "blocked [\"Blocked(\\\"late\\\")\"]".to_string()];
+            if main != want {
+                v.push(("listeners:events-before-close-ok-lost".into(), format!("the server sent Ack(7), Nack(8, multiple), a returned message and a blocked notice ahead of its CloseOk; observed {:?} expected {:?}", main, want)));
+            }
+            return v;
+        }
         if let Some(k) = p["flood"].as_u64() {
             let want_c: Vec<String> = (1..=k).map(|i| format!("Ack({},false)", i)).collect();
             let want = vec![format!("confirms {:?}", want_c), format!("returns {} in order true", k), "close -> Ok".to_string()];
@@ -1274,6 +1289,57 @@ fn exception_batch(kind: &str) -> Built {
 
 /// C13, unread listeners: `k` publishes acknowledged by the broker and `k` returned messages
 /// (one push) while the confirm and return listeners are not read; then both are read.
+/// The server's answer to Connection.Close is [Ack, Nack, returned message, blocked notice,
+/// CloseOk]: what it sends ahead of its CloseOk still reaches the listeners.
+fn late_listeners() -> Built {
+    let mut broker = StdBroker::new(Handshake::default());
+    broker.close_behaviour = vh::sim::broker::CloseBehaviour::FramesThenCloseOk(vec![
+        AMQPFrame::Method(1, AMQPClass::Basic(basic::AMQPMethod::Ack(basic::Ack { delivery_tag: 7, multiple: false }))),
+        AMQPFrame::Method(1, AMQPClass::Basic(basic::AMQPMethod::Nack(basic::Nack { delivery_tag: 8, multiple: true, requeue: false }))),
+        AMQPFrame::Method(1, AMQPClass::Basic(basic::AMQPMethod::Return(basic::Return { reply_code: 312, reply_text: "NO_ROUTE".into(), exchange: "x".into(), routing_key: "late".into() }))),
+        header(1, 2, true),
+        body(1, &[4, 2]),
+        AMQPFrame::Method(0, AMQPClass::Connection(pconnection::AMQPMethod::Blocked(pconnection::Blocked { reason: "late".into() }))),
+    ]);
+    let mut cfg = EnvConfig::default();
+    cfg.deliver_cuts = true;
+    Built {
+        broker: Box::new(broker),
+        cfg,
+        root: Box::new(move |ctx: Ctx| {
+            let mut conn = match open(&ctx, ConnectionOptions::default().heartbeat(0), ConnectionTuning::default()) {
+                Ok(c) => c,
+                Err(e) => {
+                    ctx.log(format!("open -> Err({})", err_name(&e)));
+                    return;
+                }
+            };
+            let blocked = conn.listen_for_connection_blocked().expect("listen blocked");
+            let ch = conn.open_channel(Some(1)).expect("ch1");
+            let confirms = ch.listen_for_publisher_confirms().expect("listen");
+            let returns = ch.listen_for_returns().expect("listen returns");
+            ch.enable_publisher_confirms().expect("confirm.select");
+            ch.basic_publish("", Publish::new(&[1], "k")).expect("publish");
+            let _ = ch.qos(0, 1, false);
+            ctx.forget(ch);
+            let r = conn.close();
+            ctx.log(format!("close -> {}", res(&r)));
+            let got: Vec<String> = confirms
+                .try_iter()
+                .filter_map(|c| match c {
+                    // (the ack of the publish above is not what this is about)
+                    amiquip::Confirm::Ack(p) if p.delivery_tag == 1 => None,
+                    amiquip::Confirm::Ack(p) => Some(format!("Ack({},{})", p.delivery_tag, p.multiple)),
+                    amiquip::Confirm::Nack(p) => Some(format!("Nack({},{})", p.delivery_tag, p.multiple)),
+                })
+                .collect();
+            ctx.log(format!("confirms {:?}", got));
+            ctx.log(format!("returns {:?}", returns.try_iter().map(|r| (r.routing_key.clone(), r.content.clone())).collect::<Vec<_>>()));
+            ctx.log(format!("blocked {:?}", blocked.try_iter().map(|n| format!("{:?}", n)).collect::<Vec<_>>()));
+        }),
+    }
+}
+
 fn flood_listeners(k: usize) -> Built {
     let mut broker = StdBroker::new(Handshake::default());
     let mut frames = Vec::new();
